@@ -297,7 +297,7 @@ func checkC08(c *Ctx, r *Report) {
 						holds := false
 						eachInstr(initFn, func(i3 ssa.Instruction) { // (globals keep no referrer lists)
 							if gs, ok := i3.(*ssa.Store); ok && gs.Addr == ssa.Value(clientGlobal) {
-								if sameVal(gs.Val, base) || resolveVal(gs.Val) == resolveVal(base) {
+								if sameVal(gs.Val, base) || resolveVal(gs.Val) == resolveVal(base) || sameVal(unconv(gs.Val), base) {
 									holds = true
 								}
 							}
